@@ -773,6 +773,8 @@ def _havoc(I, env, pth, label):
             return MDict(t)
         if isinstance(cur, Obj):
             return cur          # object identity kept; its attributes are havocked through their own paths
+        if isinstance(cur, (set, frozenset, V.MSet)):
+            return V.MSet(I.p.fresh(label, V.VL))      # an arbitrary set (type kept)
         return SV(I.p.fresh(label))
     name = pth[0]
     if not env.has(name):
